@@ -2,6 +2,8 @@ import SamplyModel.Model.ConvSpec
 import SamplyModel.Lemmas.DepthIter
 import SamplyModel.Lemmas.ConvJit
 import SamplyModel.Lemmas.ConvElide
+import SamplyModel.Lemmas.ConvFinal
+import SamplyModel.Lemmas.ConvMarkers
 /-!
 # C14 — deep stacks are shortened only in the middle, with an exact elision count
 
@@ -436,6 +438,67 @@ theorem C14_flush_meets_spec (pm : List MapAdd) (q : List (Nat × MapAdd)) (us :
   rw [hlen] at this
   exact this
 
+/-- **Marker stacks meet the judged statement exactly as sample stacks do** (`C14_flush_meets_spec` quantifies over
+every buffered item; this is its reading for the marker items made from samples of another event,
+`SampleOrMarker::MarkerHandle`). For every buffer with a time-sorted queue and items in nondecreasing raw time: the
+stacks that go to `Profile::set_marker_stack` are exactly those of the buffered marker items, in buffer order, each
+the depth limiter applied to the converted stack with the *recorded length* as hint — the same `flushOne` as for a
+sample, nothing depends on the arm —; and for every marker item none of whose frames is JS-classified the converted
+stack is the attributed frame list root first, the hint is exact and the stack attached to the marker satisfies
+`elisionOk`. (A change that limits the `Sample` arm only — seeded C14-4 — makes the first conjunct false.) -/
+theorem C14_marker_flush_meets_spec (pm : List MapAdd) (q : List (Nat × MapAdd)) (us : List USample)
+    (hq : SortedQ q) (hu : us.Pairwise (fun a b => a.tmono ≤ b.tmono)) :
+    (flushBuffer pm [] q us).filter (fun o => o.2.marker) =
+      (us.filter (fun u => u.marker)).map (fun u => flushOne pm (tableFrom [] q u.tmono) u) ∧
+    ∀ u ∈ us, u.marker = true →
+      (flushOne pm (tableFrom [] q u.tmono) u).2.marker = true ∧
+      ((∀ f ∈ u.stack, (secondPass (tableFrom [] q u.tmono) pm f).js = none) →
+        (flushOne pm (tableFrom [] q u.tmono) u).2.frames =
+            depthLimit 200 ((u.stack.map (fun f => (secondPass (tableFrom [] q u.tmono) pm f).frame)).reverse)
+              u.stack.length ∧
+          ((u.stack.map (fun f => (secondPass (tableFrom [] q u.tmono) pm f).frame)).reverse).length =
+            u.stack.length ∧
+          elisionOk ((u.stack.map (fun f => (secondPass (tableFrom [] q u.tmono) pm f).frame)).reverse)
+            (flushOne pm (tableFrom [] q u.tmono) u).2.frames = true) := by
+  obtain ⟨h1, h2⟩ := C14_flush_meets_spec pm q us hq hu
+  refine ⟨?_, fun u hu' hm => ⟨hm, h2 u hu'⟩⟩
+  rw [h1]
+  clear h1 h2 hu
+  induction us with
+  | nil => rfl
+  | cons u us ih =>
+    have e : (flushOne pm (tableFrom [] q u.tmono) u).2.marker = u.marker := rfl
+    simp only [List.map_cons, List.filter_cons, e]
+    cases u.marker <;> simp [ih]
+
+/-- the marker items of a flush carry exactly the marker stacks of the output, samples carry none: the item kind
+is copied, so no marker stack is emitted as a sample and no sample stack is attached to a marker -/
+theorem C14_flush_keeps_kind (pm maps : List MapAdd) (q : List (Nat × MapAdd)) (us : List USample) :
+    (flushBuffer pm maps q us).map (fun o => (o.1, o.2.t, o.2.kind)) = us.map (fun u => (u.th, u.t, u.kind)) := by
+  have := flushBuffer_kind pm maps q us
+  have h2 := congrArg (List.map (fun x : Nat × Nat × Nat × ItemKind => (x.1, x.2.1, x.2.2.2))) this
+  rw [List.map_map, List.map_map] at h2
+  exact h2
+
+/-- **Conservation of marker stacks, over histories**: for default options and *every* record history (no grammar,
+ordering or context-switch hypothesis) the stacks attached to markers in the output `views (run cfg rs)`, keyed by
+the pid / tid of the thread entry that carries the marker and the marker's time, are — as a multiset — exactly the
+other-event samples of the history (`ConvSpec.oevs`: pid, tid, converted time): each such sample yields one marker
+stack on an entry of its own thread (created on demand), none is lost when the process exits or execs, none is
+duplicated, and no other record yields one. Together with `C14_marker_flush_meets_spec` (what each of these stacks
+is) this is the marker half of the judged statement; the attribution of the frames over histories is
+`C02_history` / `C14_history` for samples and is checked by the judge for markers (`ConvSpec.expectedMarkers`). -/
+theorem C14_marker_conservation (cfg : Config) (rs : List Rec) (hr : cfg.reuse = false) :
+    List.Perm
+      ((views (run cfg rs)).flatMap (fun v => v.markers.map (fun o => (v.pidBase, v.tidBase, o.t))))
+      (oevs cfg.ref rs) :=
+  (views_markers_buffered cfg (run cfg rs) _ (run_sim cfg rs) hr).trans (marker_run cfg rs)
+
+/-- in every reachable state the buffered marker items are exactly the other-event samples so far (any options) -/
+theorem C14_buffered_markers (cfg : Config) (rs : List Rec) :
+    List.Perm (((buffered (run cfg rs)).filter (fun u => u.marker)).map (fun u => (u.gpid, u.gtid, u.t)))
+      (oevs cfg.ref rs) := marker_run cfg rs
+
 /-- **Over histories** (with `C02_history`): for every configuration with default options and every record
 history inside the hypotheses of `C02_history`, the recorded samples of `views (run cfg rs)` carry, as a multiset
 keyed by (pid, tid, time), the stacks `depthLimit 200 e.frames e.nrec` of the expected samples `e`; and for every
@@ -474,3 +537,16 @@ example :
     Life.grammarOk 1000 rs = true ∧ hasCsRec rs = false ∧ noSpecial rs = true ∧ queuedOrdered rs = true ∧
     (expectedSamples { ref := 1000 } rs).map (fun e => (e.frames.any isLabel, e.frames.length, e.nrec)) =
       [(false, 2, 2), (false, 1, 1)] := by decide
+
+/-- non-vacuity of `C14_marker_flush_meets_spec`: a buffer with a sample and a marker item of 600 recorded frames
+each; the marker stack that reaches the profile has 401 frames with the placeholder `(200 frames elided)` at
+position 200, and the judged statement holds of it -/
+example :
+    let stack : List SFrame := (List.range 600).map (fun i => SFrame.ret (0x10000 + 16 * i + 8) false)
+    let us : List USample := [{ th := 0, t := 0, tmono := 5, cpu := 0, stack := stack },
+                              { th := 0, t := 1, tmono := 6, cpu := 0, weight := 0, kind := .marker, stack := stack }]
+    ((flushBuffer [] [] [] us).filter (fun o => o.2.marker)).map
+        (fun o => (o.2.t, o.2.frames.length, o.2.frames[200]?)) = [(1, 401, some (Frame.elided 200))] ∧
+    ((flushBuffer [] [] [] us).filter (fun o => o.2.marker)).all
+        (fun o => elisionOk ((stack.map (fun f => (secondPass [] [] f).frame)).reverse) o.2.frames) = true := by
+  decide +kernel
